@@ -1,6 +1,7 @@
 import Thanos.Model.ChunkMerge
 import Thanos.Lemmas.ChunkMerge
 import Thanos.Lemmas.ChunkHeap
+import Thanos.Lemmas.ChunkFuel
 import Thanos.Generated.Facts
 /-
   C40 — Offline deduplication of downsampled chunks keeps every aggregate sample.
@@ -101,6 +102,76 @@ theorem C40_fixed (split : Nat) (hsp : 0 < split) : C40_full true split := by
   apply List.all_eq_true.mpr
   intro c hc
   exact complete_of_wf (C40_wf_preserved split hsp series hwf out hm c hc)
+
+/-- a well-formed chunk's count samples are among the samples `totalSamples` counts -/
+theorem cnt_le_samples {c : AggrChk} (h : chunkWF c = true) :
+    cnt c ≤ (c.aggr.map fun a => (a.map List.length).getD 0).sum := by
+  unfold chunkWF at h
+  split at h
+  · rename_i l0 l1 l2 l3 l4 he
+    simp only [cnt, agg, AggrChk.get, he]
+    simp
+  · cases h
+
+/-- **The repaired merger terminates and never panics on well-formed input**: the model's fuel for
+    the outer drain loop (`totalSamples + heapChunks + 2`) always suffices, because every `Next`
+    removes at least one count sample from the heap.  Together with `C40_wf_preserved` this makes
+    the C40 statement unconditional: the output EXISTS and every chunk of it is complete. -/
+theorem C40_fixed_total (split : Nat) (hsp : 0 < split) (series : List (List AggrChk))
+    (hwf : series.all seriesWF = true) :
+    ∃ out, chunkMerge true true split series = some out ∧ out.all chunkComplete = true := by
+  have hs : ∀ s ∈ series, ∀ c ∈ s, chunkWF c = true := by
+    intro s hs c hc
+    have := List.all_eq_true.mp hwf s hs
+    simp only [seriesWF, Bool.and_eq_true] at this
+    exact List.all_eq_true.mp this.1.2 c hc
+  have key : ∀ (ss : List (List AggrChk)) (h : List ChunkIt), HeapAll (fun c => chunkWF c = true) h →
+      NE h → (∀ s ∈ ss, ∀ c ∈ s, chunkWF c = true) →
+      HeapAll (fun c => chunkWF c = true) (ss.foldl (fun h s => if s.isEmpty then h else hpush h s) h) ∧
+      NE (ss.foldl (fun h s => if s.isEmpty then h else hpush h s) h) ∧
+      cntHeap (ss.foldl (fun h s => if s.isEmpty then h else hpush h s) h) ≤ cntHeap h + totalSamples ss := by
+    intro ss
+    induction ss with
+    | nil => intro h hh hn _; exact ⟨hh, hn, by simp [totalSamples]⟩
+    | cons s ss ih =>
+      intro h hh hn hs
+      simp only [List.foldl_cons]
+      have hs' : ∀ s' ∈ ss, ∀ c ∈ s', chunkWF c = true := fun s' hs' => hs s' (by simp [hs'])
+      have hle : cntIt s ≤ (s.map fun c => ((c.aggr.map fun a => (a.map List.length).getD 0).sum)).sum := by
+        have : ∀ (l : List AggrChk), (∀ c ∈ l, chunkWF c = true) →
+            cntIt l ≤ (l.map fun c => ((c.aggr.map fun a => (a.map List.length).getD 0).sum)).sum := by
+          intro l
+          induction l with
+          | nil => intro _; simp [cntIt]
+          | cons c l ihl =>
+            intro hl
+            have h1 := cnt_le_samples (hl c (by simp))
+            have h2 := ihl (fun c' hc' => hl c' (by simp [hc']))
+            rw [cntIt_cons]
+            simp only [List.map_cons, List.sum_cons]
+            omega
+        exact this s (hs s (by simp))
+      have hts : totalSamples (s :: ss) =
+          (s.map fun c => ((c.aggr.map fun a => (a.map List.length).getD 0).sum)).sum + totalSamples ss := by
+        simp [totalSamples]
+      split
+      · obtain ⟨i1, i2, i3⟩ := ih h hh hn hs'
+        exact ⟨i1, i2, by omega⟩
+      · rename_i hse
+        obtain ⟨i1, i2, i3⟩ := ih (hpush h s) (hpush_all hh (hs s (by simp)))
+          (by
+            intro x hx
+            rcases hpush_mem hx with h3 | h3
+            · exact hn x h3
+            · subst h3; intro he; rw [he] at hse; simp at hse) hs'
+        rw [hpush_cnt] at i3
+        exact ⟨i1, i2, by omega⟩
+  obtain ⟨k1, k2, k3⟩ := key series [] (by intro it hit; simp at hit) (by intro it hit; simp at hit) hs
+  have hc0 : cntHeap [] = 0 := rfl
+  obtain ⟨out, ho⟩ := dcDrain_total hsp
+    (totalSamples series + heapChunks (series.foldl (fun h s => if s.isEmpty then h else hpush h s) []) + 2)
+    _ k1 k2 (by omega)
+  exact ⟨out, ho, C40_fixed split hsp series hwf out ho⟩
 
 /-! ### regenerated facts: the source has the loop the model (`toChunkFixed`) transliterates -/
 
